@@ -231,8 +231,10 @@ def main(tier):
         for _ in range(mi):
             want = orc.cycle(cyc, 0, want, rhs[0], ext_top=is_ext)
         probs = []
-        if len(outs) != 1:
-            probs.append("%d paths without any tolerance enabled (expected one)" % len(outs))
+        if not outs:
+            probs.append("no path through setup()+solve()")
+        # usually one path with both tolerances off; a branch on something the driver model does not know (an option added
+        # later) gives several, and each of them must return the expected iterate
         for o in outs:
             if o.throws:
                 probs.append("throws %s" % o.throws.what)
